@@ -796,7 +796,9 @@ CallSavorize ==
               /\ heap' = e.h
               /\ stack' = SetTopF([f EXCEPT !.n = e.n, !.ch = Tail(f.ch)])
               /\ UNCHANGED <<phase, res, ret>>
-    /\ UNCHANGED <<mi, dt, root, doc0, open, nalias, visited, shared>>
+       \* F7 classifier: the hook edited, in place, a node referenced twice
+       /\ shared' = (shared \/ \E i \in DOMAIN heap : e.h[i] # heap[i] /\ Refs(heap, i) > 1)
+    /\ UNCHANGED <<mi, dt, root, doc0, open, nalias, visited>>
 
 SavorizeDone ==
     /\ phase = "process" /\ stack # <<>> /\ Top.pc = "sav" /\ Top.ch = <<>>
@@ -876,11 +878,11 @@ Finish ==
            /\ heap' = h2
            \* F7 classifier: stripping the tags below an Any position rewrote a
            \* node that was processed before as something else (through an alias)
-           \* ... or this visit rewrites a node that is also the KEY of some
-           \* mapping through an alias (keys of class mappings are never
-           \* visited, so no revisit would notice)
+           \* ... or this visit rewrites a node that is referenced from a second
+           \* place (a key of a class mapping, somewhere below an Any position:
+           \* places that are never visited, so no revisit would notice)
            /\ shared' = (shared \/ (\E p \in visited : p[1] # f.n /\ h2[p[1]] # heap[p[1]])
-                                \/ (h2[f.n] # heap[f.n] /\ IsKeySomewhere(heap, f.n) /\ Refs(heap, f.n) > 1))
+                                \/ (h2[f.n] # heap[f.n] /\ Refs(heap, f.n) > 1))
            /\ stack' = SubSeq(stack, 1, Len(stack) - 1)
            /\ IF Len(stack) = 1
               THEN /\ root' = f.n /\ ret' = <<0, 0>> /\ phase' = "construct"
